@@ -243,3 +243,57 @@ pub fn count(n: u32) -> usize {
         n as usize
     }
 }
+
+/// Engine C (DESIGN 15.16): the same service on real OS threads, executed by Miri, whose seeded
+/// scheduler can preempt a thread between any two statements. Runs `/verif/bin/msim` and turns its
+/// answer into a supplement for the property's check (violations keep their own replay file).
+pub fn msim_supplement(prop: &str, scenario: &str, tier: crate::driver::Tier, seed: u64) -> (Vec<world::Violation>, Value) {
+    if std::env::var_os("TRSIM_NO_MSIM").is_some() {
+        return (vec![], json!({"engine_c": "skipped (TRSIM_NO_MSIM)"}));
+    }
+    let verif = std::env::var("VERIF_DIR").unwrap_or_else(|_| "/verif".to_string());
+    let n: u64 = prop.trim_start_matches('C').parse().unwrap_or(0);
+    let (workloads, mseeds) = match tier {
+        crate::driver::Tier::Quick => (16u64, 12u64),
+        crate::driver::Tier::Thorough => (256, 16),
+    };
+    // workload seeds depend on VERIF_SEED and the property, Miri seeds are 0..mseeds
+    let w0 = (seed % 1_000_000) * 1000 + n * 50;
+    let out = std::process::Command::new(format!("{}/bin/msim", verif))
+        .arg(scenario)
+        .arg("--wseeds")
+        .arg(format!("{}..{}", w0, w0 + workloads))
+        .arg("--mseeds")
+        .arg(format!("0..{}", mseeds))
+        .arg("--rate")
+        .arg("0.05,0.2,0.01")
+        .arg("--property")
+        .arg(prop)
+        .output();
+    let out = match out {
+        Ok(o) => o,
+        Err(e) => return (vec![world::Violation { rule: format!("{}.engine_c_harness", prop), class: "msim".into(), msg: format!("cannot run bin/msim: {}", e) }], Value::Null),
+    };
+    let text = String::from_utf8_lossy(&out.stdout).to_string();
+    let last = text.lines().filter(|l| l.starts_with('{')).last().unwrap_or("{}");
+    let j: Value = serde_json::from_str(last).unwrap_or(Value::Null);
+    match j["status"].as_str() {
+        Some("held") => (vec![], j),
+        Some("violation") => {
+            let full = j["rule"].as_str().unwrap_or("msim.unknown").to_string();
+            let (rule, class) = match full.split_once(" [") {
+                Some((r, c)) => (r.to_string(), c.trim_end_matches(']').to_string()),
+                None => (full.clone(), "os_threads".to_string()),
+            };
+            // a rule of the sister property (C01 vs C07 share a scenario) is reported under this check's id
+            let rule = if rule.starts_with('C') && !rule.starts_with(prop) { format!("{}.sister_{}", prop, rule.replace('.', "_")) } else if rule.starts_with("miri.") { format!("{}.{}", prop, rule.replace('.', "_")) } else { rule };
+            let msg = format!("{} (engine C: workload seed {}, Miri seed {}, preemption rate {}) msim_replay={}", j["what"].as_str().unwrap_or(""), j["wseed"], j["mseed"], j["rate"].as_str().unwrap_or(""), j["replay"].as_str().unwrap_or(""));
+            (vec![world::Violation { rule, class, msg }], j)
+        }
+        _ => {
+            // a harness error of engine C must not pass silently and is not a violation either
+            println!("HARNESS-ERROR property={} engine C: {}", prop, j["what"].as_str().unwrap_or(&String::from_utf8_lossy(&out.stderr)));
+            (vec![], json!({"engine_c": "error", "detail": j}))
+        }
+    }
+}
